@@ -1,6 +1,8 @@
 package rules
 
 import (
+	"go/token"
+	"go/types"
 	"sort"
 	"strings"
 
@@ -119,6 +121,38 @@ func init() {
 
 		c.Rule("C25d encoding: the provider-signed bytes (reply data ‖ request data rendering ‖ metadata) must be uniquely decodable")
 		c.RequireInjectiveConcat("C25d", pt+"RelayExchange.DataToSign", 3)
+		c.Rule("C25e no shortcut around recovery: the address the provider attributes a relay session to is, on every success return of RPCProviderServer.ExtractConsumerAddress, the first result of sigs.ExtractSignerAddress applied to that very session (a result remembered under the signature alone no longer binds the signed fields)")
+		if f := c.Fn("protocol/rpcprovider.RPCProviderServer.ExtractConsumerAddress"); f != nil {
+			const esa = "utils/sigs.ExtractSignerAddress"
+			ok, why := true, ""
+			n := 0
+			for _, s := range c.SuccessReturns(f) {
+				n++
+				ret := s.Instr.(*ssa.Return)
+				for _, leaf := range phiLeaves(RetVal(ret, 0)) {
+					d := ir.Desc(unconv(leaf))
+					if !(strings.HasPrefix(d, "call("+esa+")(") && strings.HasSuffix(d, "#0")) {
+						ok, why = false, "returns "+trunc(d, 120)+" as the consumer address"
+					}
+				}
+			}
+			for _, s := range c.CallsByName(f, false, esa) {
+				a := ir.CallOf(s.Instr).Args[0]
+				if mi, isMI := a.(*ssa.MakeInterface); isMI {
+					a = mi.X
+				}
+				if len(f.Params) != 3 || a != ssa.Value(f.Params[2]) {
+					ok, why = false, "recovers the signer of "+trunc(ir.Desc(a), 100)+", not of the session it was given"
+				}
+			}
+			if n == 0 {
+				c.Undecided("C25e: ExtractConsumerAddress has no success return")
+			} else if ok {
+				c.OK("C25e/ExtractConsumerAddress/address=ExtractSignerAddress(session)", c.P.Pos(f.Pos()), "every success return yields the recovery result for param#2")
+			} else {
+				c.Fail("C25e/ExtractConsumerAddress/address=ExtractSignerAddress(session)", c.P.Pos(f.Pos()), why)
+			}
+		}
 		c.NotCovered("the iff at the cryptographic level (secp256k1 recovery, sha256); proto text rendering is assumed injective on messages")
 	})
 
@@ -164,6 +198,73 @@ func init() {
 			c.OK("C26a/GetContentHashData/metadata-name-and-value", c.P.Pos(f.Pos()), "Name+Value of each entry")
 		} else {
 			c.Fail("C26a/GetContentHashData/metadata-name-and-value", c.P.Pos(f.Pos()), "metadata entries are not hashed by name and value")
+		}
+		c.Rule("C26e block numbers enter the hash injectively: between the read of RequestBlock / SeenBlock and the hashed bytes there is nothing but same-width integer conversions (a bijection, also on the negative symbolic values LATEST, EARLIEST, …) and the fixed-width encoder sigs.EncodeUint64; a clamp, mask or any other function in between merges distinct requests")
+		for _, fld := range []string{"RequestBlock", "SeenBlock"} {
+			var starts []ssa.Value
+			ir.EachInstr(f, func(in ssa.Instruction) {
+				switch x := in.(type) {
+				case *ssa.FieldAddr:
+					if ir.FieldKey(x) == pt+"RelayPrivateData."+fld && x.Referrers() != nil {
+						for _, r := range *x.Referrers() {
+							if ld, ok := r.(*ssa.UnOp); ok && ld.Op == token.MUL {
+								starts = append(starts, ld)
+							}
+						}
+					}
+				case *ssa.Field:
+					if ir.FieldKey(x) == pt+"RelayPrivateData."+fld {
+						starts = append(starts, x)
+					}
+				}
+			})
+			if len(starts) == 0 {
+				continue // C26a reports the missing field
+			}
+			bad, encoded := "", false
+			seen := map[ssa.Value]bool{}
+			var walk func(v ssa.Value)
+			walk = func(v ssa.Value) {
+				if seen[v] || v.Referrers() == nil {
+					return
+				}
+				seen[v] = true
+				for _, r := range *v.Referrers() {
+					switch u := r.(type) {
+					case *ssa.Convert:
+						from, ok1 := u.X.Type().Underlying().(*types.Basic)
+						to, ok2 := u.Type().Underlying().(*types.Basic)
+						if ok1 && ok2 && from.Info()&types.IsInteger != 0 && to.Info()&types.IsInteger != 0 && types.SizesFor("gc", "amd64").Sizeof(from) == types.SizesFor("gc", "amd64").Sizeof(to) {
+							walk(u)
+						} else {
+							bad = "a width- or kind-changing conversion " + u.X.Type().String() + "→" + u.Type().String()
+						}
+					case *ssa.ChangeType:
+						walk(u)
+					case *ssa.DebugRef:
+					case ssa.CallInstruction:
+						if n := ir.CalleeName(u.Common()); n == "utils/sigs.EncodeUint64" {
+							encoded = true
+						} else {
+							bad = "a call to " + n
+						}
+					default:
+						bad = "the instruction " + trunc(r.String(), 80)
+					}
+				}
+			}
+			for _, s := range starts {
+				walk(s)
+			}
+			key := "C26e/GetContentHashData/" + fld + "-encoded-injectively"
+			switch {
+			case bad != "":
+				c.Fail(key, c.P.Pos(f.Pos()), fld+" passes through "+bad+" before it is hashed: distinct block numbers (the negative symbolic ones included) may hash alike")
+			case !encoded:
+				c.Fail(key, c.P.Pos(f.Pos()), fld+" is read but never reaches sigs.EncodeUint64")
+			default:
+				c.OK(key, c.P.Pos(f.Pos()), "field → same-width integer conversion → sigs.EncodeUint64")
+			}
 		}
 		c.Rule("C26b consumer side: the request builder fills ContentHash with HashMsg(GetContentHashData()) of the same request data it sends")
 		nb := 0
